@@ -69,7 +69,10 @@ def run_env(extra=None):
          "PATH": ":".join([os.path.join(BUILD, d) for d in
                            ("mfront/src", "mtest/src", "tfel-check/src", "mfront-query/src",
                             "tfel-unicode-filt/src", "tfel-config")] + [os.environ.get("PATH", "")]),
-         "TFELHOME": ""}
+         "TFELHOME": "",
+         # every mfront started by the checks uses a semaphore of its own (hook of MFrontLock.cxx): the user's real lock
+         # "/mfront-<uid>" is never touched, and a lock left at 0 by a killed mfront cannot block the checks
+         "TFEL_VERIF_LOCK_NAME": "/vf-%d" % os.getpid()}
     if extra:
         e.update(extra)
     return e
@@ -337,6 +340,11 @@ def finish(ctx, level, coverage, assumptions, extra=None):
     if ctx.replay_only is None:
         check_evidence(ev)
         json.dump(ev, open(os.path.join(VERIF, "evidence", ctx.pid + ".json"), "w"), indent=1)
+    for sem in glob.glob("/dev/shm/sem.vf-*%d*" % os.getpid()) + glob.glob("/dev/shm/sem.vf-%d" % os.getpid()):
+        try:
+            os.remove(sem)
+        except OSError:
+            pass
     print("%s %s tier=%s wall=%.1fs violations=%d known=%d" % (
         "FAIL" if rc else "PASS", ctx.pid, ctx.tier, time.time() - ctx.t0, len(new), len(hit)))
     return rc
